@@ -1,6 +1,25 @@
 (* The tie between the GENERATED translation of typedpy/serialization/versioned_mapping.py and of commons.deep_get
-   (Gen/VersionedSrc.v: what _convert, convert_dict, deep_get, Constant say NOW) and the hand-written model
-   Ser/Versioned.v on which property C17 is proved. *)
+   (Gen/VersionedSrc.v: what _convert, convert_dict, deep_get, _get_next_level, Constant say NOW) and the
+   hand-written model Ser/Versioned.v on which property C17 is proved.  Every theorem is quantified over ALL
+   documents, mappings / lists of mappings and user-function oracles [fn]; a source edit that changes what is
+   computed makes the matching lemma fail (or the definition UNTRANSLATABLE, so that the lemma no longer type-checks).
+
+   How the model's inputs are seen on the Python side:
+     document  d : dict                the dict  [PDict d]
+     mapping   m                       the dict  [enc_mapping m] = {k: enc_mval v}, iterated in the model's order
+     MConst c                          the object Constant(c): [Src_Constant_new c], i.e. what Constant.__init__
+                                       (translated too) builds: class tag "Constant", attribute _val = c
+     MSub m                            the dict [enc_mapping m]
+     MFunc fid args                    an object of class FunctionCall with attributes func = the callable number
+                                       fid ([enc_fn fid]) and args = None when [args] is empty, else the list of str
+     MKey p                            the str p
+     MDeleted                          the class Deleted: the module-level object [py_global "Deleted"]
+     MIgnored                          the int 12345 (what the correspondence harness uses)
+     fn                                calls of a run-time callable go through [call_of fn]: callable number fid
+                                       applied to the argument list is [fn fid args]
+   `isinstance(v, Constant)` / `isinstance(v, FunctionCall)` are tests of the class tag, `v == Deleted` is equality
+   with the module-level object, `copy.deepcopy` is the identity on values; a recursive function receives as fuel
+   one more than the summed height of its arguments (proved sufficient here). *)
 From Coq Require Import ZArith QArith NArith String Ascii Bool Lia List.
 Import ListNotations.
 From TP Require Import Base.PyVal Base.PyOps Base.PyOps2 Base.PyOpsVersioned Ser.Versioned Ser.VersionedProofs
